@@ -26,6 +26,7 @@ Proof.
     destruct (negb (forallb _ (p_meas p))); [inversion H; auto|].
     destruct (channel_info dm (chmap st) (p_chans p)); [|inversion H; auto].
     destruct (negb (same_setN awg_order (keys l))); [inversion H; auto|].
+    destruct (has_key name (regs st) && negb update); [inversion H; auto|].
     destruct (upload_all _ _ _ _ _ _) as [aw ok]. destruct ok; cbn in H; inversion H; subst. congruence.
   - unfold remove_program in H. destruct (lookup name (regs st)); inversion H.
   - unfold clear_programs in H. inversion H.
